@@ -236,6 +236,30 @@ def main(argv=None):
     obligations = [o for o in obligations if o not in known_hit]
     discharged = len([o for o in obligations if o not in failed_names])
 
+    # thorough tier: the property's witness probe (real crate, public API, fixed catalogue of inputs) is run as a BOUNDED
+    # stand-in for the clauses the contracts do not decide (convergence, accuracy); it is labelled bounded, never counted as
+    # an obligation, and a failing input it finds on the current tree is a violation with a concrete replay
+    bounded_runs, bounded_hit = [], None
+    if a.tier == "thorough" and not new_fail and not und and not a.only:
+        wfn = getattr(mod, "witness", None) or default_witness(prop)
+        if wfn:
+            try:
+                w = wfn([], ctx)
+            except Exception as e:
+                w = {"found": False, "error": repr(e)}
+            bounded_runs.append({"what": f"witness probe witness/src/bin/{prop.lower()}.rs on the real crate", "label": "bounded",
+                                 "bound": "the fixed catalogue of inputs written in the probe (not a proof; covers clauses listed as not decided)",
+                                 "cmd": w.get("cmd"), "found_failing_input": bool(w.get("found")), "failures": w.get("failures", [])[:8], "error": w.get("error")})
+            if w.get("found"):
+                # failing inputs that belong to a listed known finding are not reported again
+                try:
+                    kf = json.load(open(os.path.join(VERIF, "known_findings.json"))).get("findings", [])
+                except Exception:
+                    kf = []
+                pre = [f.get("witness_failure_prefix") for f in kf if f.get("property") == prop and f.get("witness_failure_prefix")]
+                rest = [x for x in w.get("failures", []) if not any(str(x).startswith(p_) for p_ in pre)]
+                if rest or not w.get("failures"):
+                    bounded_hit = dict(w, failures=rest or w.get("failures", []))
     wall = time.time() - t0
     samples = []
     for f in fns[:6]:
@@ -253,13 +277,13 @@ def main(argv=None):
             "failed_obligations": [n for n in failed_names if n not in known_hit], "undecided": und,
             "known_findings": [{"obligation": k, "what": known_map[k].get("what")} for k in known_hit],
             "clauses_decided": getattr(mod, "DECIDED", []), "clauses_not_decided": getattr(mod, "NOT_DECIDED", []),
-            "bounded": getattr(mod, "BOUNDED", []),
+            "bounded": getattr(mod, "BOUNDED", []) + bounded_runs,
             "samples": samples + (extra_res.get("samples", []) if extra_res else []),
             "slowest_functions_ms": sorted(((v[0], k) for k, v in fn_times.items()), reverse=True)[:8],
             "exhaustive": bool(getattr(mod, "EXHAUSTIVE", False)),
         },
         "assumptions": GLOBAL_ASSUMPTIONS + getattr(mod, "ASSUMPTIONS", []),
-        "wall_s": round(wall, 2), "violations": len({x["obligation"] for x in new_fail}),
+        "wall_s": round(wall, 2), "violations": len({x["obligation"] for x in new_fail}) + (1 if bounded_hit else 0),
     }
     os.makedirs(os.path.join(VERIF, "evidence"), exist_ok=True)
     if not a.only and not os.environ.get("VERIF_NO_EVIDENCE"):
@@ -297,6 +321,16 @@ def main(argv=None):
         print(f"VIOLATION property={prop} replay={path}{tail}")
         for x in und[:10]:
             print("UNDECIDED", prop, x)
+        return 1
+    if bounded_hit:
+        os.makedirs(os.path.join(VERIF, "replay"), exist_ok=True)
+        path = os.path.join(VERIF, "replay", f"{prop}.json")
+        json.dump({"property": prop, "failed_obligations": [], "bounded_check": "witness probe (thorough tier)", "witness": bounded_hit,
+                   "note": "every contract obligation was discharged; the bounded witness probe found a failing input on the real crate",
+                   "rerun": bounded_hit.get("cmd")}, open(path, "w"), indent=1)
+        for fl in bounded_hit.get("failures", [])[:8]:
+            print("WITNESS", prop, str(fl)[:300])
+        print(f"VIOLATION property={prop} replay={path}")
         return 1
     print(f"OK {prop}: {discharged}/{len(obligations)} obligations discharged, {len(fns)} functions under contract, "
           f"{canary_failed}/{canary_total} canaries failed as expected, {wall:.1f}s")
